@@ -63,6 +63,23 @@ class Ctx:
         self.rule_text: Dict[str, str] = {}
         self.notes: List[str] = []
         self.extra: Dict[str, Any] = {}
+        self._prefix = ""  # set while the rules of a prerequisite property run on behalf of this one
+
+    def delegated(self, prefix: str):
+        """Context manager: rule ids used inside are recorded as '<prefix><rule id>' (the rules of another property that
+        are necessary conditions of this one, run over the mechanism files this property is anchored in)."""
+        ctx = self
+
+        class _D:
+            def __enter__(self_):
+                self_.old = ctx._prefix
+                ctx._prefix = ctx._prefix + prefix
+
+            def __exit__(self_, *a):
+                ctx._prefix = self_.old
+                return False
+
+        return _D()
 
     # -- E2: calls to in-package functions rewritten to all-keyword form (positional == keyword spelling)
     def normcalls(self, t):
@@ -87,16 +104,19 @@ class Ctx:
 
     # -- rule declaration
     def rule(self, rid: str, text: str, floor: int):
+        rid = self._prefix + rid
         self.rule_text[rid] = text
         self.floors[rid] = floor
         self.instances.setdefault(rid, [])
 
     # -- instance verdicts
     def ok(self, rid: str, site: str, what: str, **kw):
+        rid = self._prefix + rid
         self.instances.setdefault(rid, []).append({"site": site, "obligation": what, "verdict": "PASS", **kw})
 
     def bad(self, rid: str, file: str, func: str, construct: str, message: str, line: int = 0, witness=None,
             count_instance=True):
+        rid = self._prefix + rid
         f = Finding(self.prop, rid, file, func, construct, message, line, witness)
         # one finding per key
         if not any(g.key() == f.key() for g in self.findings):
@@ -107,6 +127,7 @@ class Ctx:
                  "message": message, **({"witness": witness} if witness is not None else {})})
 
     def undec(self, rid: str, site: str, reason: str):
+        rid = self._prefix + rid
         self.undecided.append(Undecided(rid, site, reason))
         self.instances.setdefault(rid, []).append({"site": site, "obligation": reason, "verdict": "UNDECIDED"})
 
